@@ -182,6 +182,9 @@ func (m *Machine) jsonUnmarshal(data Value, dst Value) Value {
 		}
 		return m.freshError("json: cannot unmarshal value into Go value of a different type")
 	}
+	if b, ok := concreteBytes(data); ok && len(b) == 0 {
+		return m.freshError("unexpected end of JSON input")
+	}
 	if b, ok := concreteBytes(data); ok && pt != nil {
 		cur := m.load(p)
 		switch cur.(type) {
